@@ -154,6 +154,15 @@ def _std_transfer(I, fr, t, c, pth):
                 return True
         return False
 
+    # ------------------------------------------------------------------ integer from bool: a decided bit, or one path per value
+    if name == 'from' and trait == 'std::convert::From' and len(args) == 1 and c.get('self_ty') in ('u8', 'u16', 'u32', 'u64', 'usize', 'i32', 'i64') and (c.get('targs') or [None])[-1] == 'bool':
+        b = fr.operand(args[0])
+        if isinstance(b, Int):
+            fr.storev(dest, Int(1 if b.v else 0, 8))
+            return True
+        if isinstance(b, tuple) and len(b) == 2 and b[0] == 'bool' and I._fork_ctx is not None:
+            return I.fork_alternatives(fr, t, pth, [(Int(0, 8), [(b[1], 0)], []), (Int(1, 8), [(b[1], 1)], [])])
+        return False
     # ------------------------------------------------------------------ byte representations of known integers
     if name in ('to_be_bytes', 'to_le_bytes') and '::num::<impl u' in d and len(args) == 1:
         v_ = as_int(fr.operand(args[0]))
